@@ -4,63 +4,97 @@ ENTRY = {'coq_dir': 'C20',
  'cases': {'quick': 4000, 'thorough': 40000},
  'consts': ['BITSWAP_MAX_MESSAGE_SIZE', 'BITSWAP_MAX_BATCH_SIZE', 'BITSWAP_EMPTY_MESSAGE_SIZE'],
  'nontrivial_min_trace': 6,
- 'rule': 'five seeded case streams, mixed 35/30/4/23/8: (1) receiving — 1-6 (thorough 1-12) payload entries per case, prefixes built from '
-         'versions {0,1,2,3,127,128,2^64-1}, codecs {raw,dag-pb,...,2^64-1}, all 12 compiled-in hash functions plus 8 unsupported codes, '
-         'multihash lengths around the u8 limit, then byte-level mutations (truncation, trailing bytes, non-minimal and ten-byte varints, '
-         'bit flips, empty prefix); payloads of 0 B-70 KB (1 MiB thorough) from a pool of 40 ids so that one prefix meets different data; '
-         'the real block_to_response result (CID fields, digest bytes, payload identity) is compared with the model fed with digests the '
-         'harness computed itself; (2) sending — queues of 0-60 (thorough 0-300) blocks with CID shapes giving 4-23 byte prefixes, data '
-         'lengths around the limits and the varint length boundaries, limits drawn from {0..2^40} and in 4% of the cases the shipped '
-         'limits with MiB-sized blocks; every batch of the real extract_next_batch, the encoded length of the real blocks_message and its '
-         're-decoded (prefix bytes, data) entries are compared with the model; (3) end to end — two litep2p nodes over TCP loopback, the '
-         'real send_response on one side and on_message_received on the other with the shipped limits: the blocks of every '
-         "BitswapEvent::Response are compared with the model's messages; (4) the real Bitswap::run event loop polled by hand on a "
-         'harness-fed TransportService with three connected peers and in-memory substreams, 3-20 (thorough 3-40) operations per case: '
-         'inbound substreams opened and replaced; frames encoded by a protobuf writer of the harness carrying wantlists (valid CIDv0/v1 '
-         'with supported and unsupported hash codes, truncated/overlong/non-minimal/garbled CID bytes, trailing bytes, cancel and '
-         'sendDontHave flags, want types {0,1,2,5,-1}), payload entries as in stream 1 and presences (types {0,1,2,-1}), delivered whole '
-         'or in two pieces; substreams ended by a frame that is not protobuf, a frame cut anywhere then closed, an oversize or malformed '
-         'length prefix, a clean close or a reset; BitswapHandle::send_request / send_response (presences and blocks mixed, 4 B-2 MiB+1) '
-         'queued, written to substreams that take everything, stall after a byte budget (the paused tokio clock is advanced past '
-         'WRITE_TIMEOUT), fail after a byte budget or cannot be opened; after every operation the BitswapEvents and every byte written '
-         '(complete frames decoded again with the crate\'s prost schema: wantlist entries, presences, block prefixes and data, message '
-         'lengths; and the length of an incomplete frame) are compared with the model; (5) presence batching — 0-60 (thorough 0-300) '
-         'presences with limits {0..2^40}: every batch of the real extract_next_presence_batch, the length of the real presences_message '
-         'and its decoded entries; non-trivial = trace of >= 6 numbers; distinct = distinct (case, trace) pairs',
+ 'rule': 'eight seeded case streams, mixed 30/25/4/29/5/4/2/1: (1) receiving — 1-6 (thorough 1-12) payload entries per case, prefixes '
+         'built from versions {0,1,2,3,127,128,2^64-1}, codecs {raw,dag-pb,...,2^64-1}, all 12 compiled-in hash functions plus 8 '
+         'unsupported codes, multihash lengths around the u8 limit, then byte-level mutations (truncation, trailing bytes, non-minimal and '
+         'ten-byte varints, bit flips, empty prefix); payloads of 0 B-70 KB (1 MiB thorough) from a pool of 40 ids so that one prefix '
+         'meets different data; the real block_to_response result (CID fields, digest bytes, payload identity) is compared with the model '
+         'fed with digests the harness computed itself; (2) sending — queues of 0-60 (thorough 0-300) blocks with CID shapes giving 4-23 '
+         'byte prefixes, data lengths around the limits and the varint length boundaries, limits drawn from {0..2^40} and in 4% of the '
+         'cases the shipped limits with MiB-sized blocks; every batch of the real extract_next_batch, the encoded length of the real '
+         'blocks_message and its re-decoded (prefix bytes, data) entries are compared with the model; (3) end to end — two litep2p nodes '
+         'over TCP loopback, the real send_response on one side and on_message_received on the other with the shipped limits: the blocks '
+         "of every BitswapEvent::Response are compared with the model's messages; (4) the real Bitswap::run event loop polled by hand on a "
+         'harness-fed TransportService and TransportManager with three peers and in-memory substreams, 3-20 (thorough 3-40) operations per '
+         'case, a third of the cases opening with one of 12 scripted peer histories (connection lost with a queue waiting, commands to a '
+         'peer that is gone, parked dials that succeed or fail, a dead connection, ...): inbound substreams opened and replaced; frames '
+         'encoded by a protobuf writer of the harness carrying wantlists (valid CIDv0/v1 with supported and unsupported hash codes, '
+         'truncated/overlong/non-minimal/garbled CID bytes, trailing bytes, cancel and sendDontHave flags, want types {0,1,2,5,-1}), '
+         'payload entries as in stream 1 and presences (types {0,1,2,-1}), in 30% of the frames also fields the loop must ignore (legacy '
+         '`blocks`, pendingBytes, `full`, unknown fields, the wantlist as two fields that protobuf merges), delivered whole or in two '
+         'pieces; substreams ended by a frame that is not protobuf, a frame cut anywhere then closed, an oversize or malformed length '
+         'prefix, a clean close or a reset; BitswapHandle::send_request / send_response (presences and blocks mixed, 4 B-2 MiB+1) queued, '
+         'written to substreams that take everything, stall after a byte budget (the paused tokio clock is advanced past WRITE_TIMEOUT), '
+         'fail after a byte budget or cannot be opened; ConnectionClosed / ConnectionEstablished / a connection whose command channel died '
+         '/ DialFailure, and the answer of TransportManagerHandle::dial forced to NoAddressAvailable / Ok / AlreadyConnected / dial in '
+         'progress; in 0.4% (thorough 0.8%) of the cases one bulk command of 40 000-80 000 entries (requests, presences, tiny blocks, in '
+         'runs of 1,2,3,.. equal entries) so that the shipped MAX_MESSAGE_SIZE is what splits the real send_response and what the one '
+         'message of the real send_request fits or exceeds; after every operation the BitswapEvents and every byte written (complete '
+         "frames decoded again with the crate's prost schema: wantlist entries, presences, block prefixes and data, message lengths, "
+         'entries run-length encoded; and the length of an incomplete frame) are compared with the model, and the oracle checks that the '
+         "messages carry exactly the entries due at that point of the model's state, once and in order, each message within the limits; "
+         '(5) presence batching — 0-60 (thorough 0-300) presences with limits {0..2^40}: every batch of the real '
+         'extract_next_presence_batch, the length of the real presences_message, its decoded entries and its bytes (compared with the Coq '
+         'encoder byte for byte); (6) the real send_request (through a one-line wrapper) on a substream over an in-memory carrier whose '
+         'codec limit is drawn from {0..2^40} on both sides of the size of the one message (0-60, thorough 0-300 wants): Ok/Err, the bytes '
+         'written, the decoded entries, the bytes compared with the Coq encoder; (7) blocks_message on 0-6 blocks given with their data '
+         '(0-300 B): the bytes compared with the Coq encoder; (8) end to end again — a send_request of 0-9 wants followed by a '
+         'send_response of 0-6 presences and 0-10 honest blocks (0 B-MAX_BATCH_SIZE+1) between the two nodes of stream 3: every '
+         'BitswapEvent::Request / Response of the remote user, message by message; non-trivial = trace of >= 6 numbers; distinct = '
+         'distinct (case, trace) pairs',
  'trusted_base': ['hash functions are abstract in the theorems (a function code -> data -> option digest); in the runs the digests are '
                   "computed by the harness with multihash-codetable's Code::digest (and with Python's hashlib for the stored corpus), "
                   'outside block_to_response',
-                  'the crates unsigned-varint, cid, multihash, prost are modelled by hand (varint codec, Cid::to_bytes/read_bytes, CIDv0 '
-                  'rules, 64-byte limit, protobuf length arithmetic) and diffed on the generated inputs only',
-                  'usize arithmetic is treated as unbounded',
-                  'the event loop is observed through its events and the bytes it writes; its maps (pending_outbound, outbound, inbound) '
-                  'are modelled for connected peers only: dialing, connection close and open_substream failures of the service are not',
-                  'tokio (paused clock, select!), the TransportService and the unsigned-varint framing of Substream are exercised, not '
-                  'modelled: an inbound substream is a sequence of decodable frames ended by one bad item',
+                  'the crates unsigned-varint, cid, multihash are modelled by hand (varint codec, Cid::to_bytes/read_bytes, CIDv0 rules, '
+                  '64-byte limit) and diffed on the generated inputs only; the protobuf encoder is the generic one of '
+                  'coq/common/Protobuf.v (tied to prost by C19), the messages built with it are diffed byte for byte with request_message '
+                  '/ presences_message / blocks_message',
+                  'usize arithmetic is treated as unbounded in the batching theorems; the byte-length theorems state the 64-bit bound '
+                  'explicitly',
+                  "the event loop is observed through its events and the bytes it writes; the TransportService's connection table and the "
+                  "TransportManager's answer to dial are driven by the harness (verif_new, verif_force_peer), not modelled: one connection "
+                  'per peer, ConnectionEstablished only for a peer without connection',
+                  'tokio (paused clock, select!, mpsc channels of 4096 entries that the harness never fills), the unsigned-varint framing '
+                  'of Substream are exercised, not modelled: an inbound substream is a sequence of decodable frames ended by one bad item, '
+                  'one operation is settled before the next is given',
                   'the TCP/noise/yamux stack under the end-to-end stream is not modelled'],
  'level_text': 'Proof: for every prefix byte string, payload and family of hash functions the block delivered by block_to_response is the '
                "received payload paired with the CID recomputed from it (digest under the prefix's hash code, prefix's version and codec); "
                'malformed, trailing-byte, unsupported-version/length and uncomputable prefixes are dropped and honest blocks are accepted '
-               '(varint, prefix and CID byte codecs round trip). For every session (any requests, any peers, any number and order of '
-               'messages) every block handed to the user hashes to its CID; an inbound substream delivers the events of its complete '
-               'decodable frames and nothing from whatever ends it; a write that stalls or fails leaves complete frames and a piece of one, '
-               'of which a receiver delivers the complete ones only. Wantlists: what send_request writes is what the peer reports; '
-               'entries are judged one by one (invalid CID or want type dropped, the rest untouched). For every queue, size mix and '
-               'limits the block messages and — after the second fix — the presence messages of send_response are non-empty, within '
-               'the limits, and carry exactly what fits, once and in order; with the shipped constants every block <= MAX_BATCH_SIZE and '
-               'every presence is sent. The model is tied to bitswap/mod.rs by differential runs of the hooked functions, of the real '
-               'event loop on in-memory substreams and of two nodes over TCP.',
+               '(varint, prefix and CID byte codecs round trip). For every history of the node (any peers, commands, frames, substreams '
+               'opening, stalling, failing, connections closing, dying and coming back, dials accepted, refused and failing) every block '
+               'handed to the user hashes to its CID and every message written passes the size check; events come from complete decodable '
+               'frames only; a write that stalls or fails leaves complete frames and a piece of one, of which a receiver delivers the '
+               'complete ones only. Queues: queued commands always wait for exactly one answer of the service (no stuck queue, invariant '
+               'over all histories) and every answer empties the queue or moves it on; a command for a peer that is gone is dropped '
+               'silently or parked for the dial and then written completely and in order; peers do not interfere. Wantlists: what '
+               'send_request writes (one message) is what the peer reports; entries are judged one by one. For every queue, size mix and '
+               'limits the block messages and the presence messages (second fix) of a response are non-empty, within the limits, and carry '
+               'exactly what fits, once and in order; with the shipped constants every block <= MAX_BATCH_SIZE and every presence is sent; '
+               'every message that reaches the wire is within the limit (responses by batching, a request because the codec refuses a '
+               'longer one). The sizes the batching counts are proved to be the byte lengths of the protobuf encodings, so the bounds hold '
+               'for bytes on the wire. The model is tied to bitswap/mod.rs by differential runs of the hooked functions (entries and '
+               'bytes), of the real event loop on in-memory substreams with a harness-fed service and manager (including bulk commands '
+               'that reach the shipped message limit), and of two nodes over TCP.',
  'level_note': 'Holds for the tree with two `fix:` commits (F-C20a: batches bounded by data bytes only; F-C20b: all presences of a '
                'response in one unsplit message — in both cases an over-long message was dropped whole; the _insufficient theorems show '
-               'the old code cannot respect a limit, the scaled witnesses in corpus/C20 must now pass). NOT provided by litep2p and '
-               'therefore not claimed: matching of responses to requests. The loop keeps no want set; unsolicited and repeated blocks are '
-               'delivered (C20_only_requested_refuted, C20_no_duplicate_delivery_refuted, confirmed on the real loop); '
-               'C20_only_requested_with_want_filter / C20_no_duplicate_delivery_with_want_filter are about a client-side want set that '
-               'exists only in the model. Also observed, outside the property text: cancel entries of a wantlist are reported as wants; a '
-               'response whose send fails half-way is queued again whole, so blocks already written are written again on the next '
-               'substream; a failed action silently drops every action queued behind it. Trusted: Coq kernel, extraction, harness and '
-               'hooks; hash functions abstract.',
- 'assumptions': ['no usize overflow in the size sums',
+               'the old code cannot respect a limit, the scaled witnesses in corpus/C20 and the full-size ones of '
+               'corpus/C20/node_bulk.case must now pass). NOT provided by litep2p and therefore not claimed: matching of responses to '
+               'requests. The loop keeps no want set; unsolicited and repeated blocks are delivered (C20_only_requested_refuted, '
+               'C20_no_duplicate_delivery_refuted, confirmed on the real loop); C20_only_requested_with_want_filter / '
+               'C20_no_duplicate_delivery_with_want_filter are about a client-side want set that exists only in the model. Also observed, '
+               'outside the property text: an outgoing request with more wants than fit one message (32 000 always fit, '
+               'C20_default_request_fits; about 95 000 CIDv1/sha2-256 wants do not) is refused by the codec and dropped together with what '
+               "is queued behind it — requests are outside C20's text; the model follows the code (C20_request_single_message, "
+               'C20_unsplit_request_insufficient, C20_oversized_request_refused, C20_oversized_request_drops_queue, '
+               'C20_flush_stops_at_oversized_request; corpus/C20/obs_oversized_request.case, node_bulk.case); cancel entries of a wantlist '
+               'are reported as wants (C20_request_ignores_cancel); a command whose send fails half-way on an established substream is '
+               'queued again whole, so what was already written is written again on the next substream (C20_failed_send_retried_whole: '
+               'at-least-once towards the remote), while a queue flushed to a fresh substream is dropped at the first failure; no failure '
+               'of any kind (refused dial, dial failure, connection closed, write timeout) is reported to the user '
+               '(C20_events_only_from_frames, C20_send_to_gone_peer_dropped). Trusted: Coq kernel, extraction, harness and hooks; hash '
+               'functions abstract.',
+ 'assumptions': ['no usize overflow in the size sums (explicit as `< 2^64` in the byte-length theorems)',
                  'the receiving peer in the end-to-end stream is litep2p itself',
-                 'peers of the event-loop stream stay connected (no dial, no connection close)',
+                 'the service reports at most one connection per peer to the loop and answers every substream request and accepted dial',
                  'only-requested / at-most-once delivery need a want set on the user side (not in litep2p)']}
